@@ -68,7 +68,8 @@ class Scenario:
                     if s is self.state[0]:
                         e = e + sympy.Mod(self.state[1], 3) * self.state[0]
                     elif s is self.state[1]:
-                        e = e + 2 * sympy.Mod(self.state[1], 3)
+                        # ... and a quantity wrapped into (-5/2, 0]: a NEGATIVE divisor (Mod takes the divisor's sign)
+                        e = e + 2 * sympy.Mod(self.state[1], 3) + sympy.Mod(self.state[0], -sympy.Rational(5, 2))
                 if tiny and len(allsyms) >= 2 and s is self.state[0]:
                     # physically tiny constants as BARE coefficients: a constant Jacobian entry of 3e-19, and (below) noise of 4e-22 / 6e-20
                     e = e + sympy.Float(3e-19) * (a if a is not s else b)
@@ -245,7 +246,7 @@ def jacobian_at(F, X, sub):
     return out
 
 
-def build_ekf(sc, config=None, container="set"):
+def build_ekf(sc, config=None, container="set", proactive_simplify=False):
     from replay import shim
     from replay.native import repo_import
 
@@ -253,8 +254,10 @@ def build_ekf(sc, config=None, container="set"):
     ui = repo_import("formak.ui")
     cfg = {"innovation_filtering": None}
     cfg.update(config or {})
-    model = sc.ui_model(ui, container)
-    ekf = py.compile_ekf(model, dict(sc.process_noise), {k: dict(v) for k, v in sc.sensor_models.items()}, {k: dict(v) for k, v in sc.sensor_noises.items()}, calibration_map=dict(sc.calibration_map), config=cfg)
+    model = sc.ui_model(ui, container, proactive_simplify=proactive_simplify)
+    # the calibration map is written in REVERSE name order (a map has no order the library may rely on)
+    cal = dict(sorted(sc.calibration_map.items(), key=lambda kv: kv[0].name, reverse=True))
+    ekf = py.compile_ekf(model, dict(sc.process_noise), {k: dict(v) for k, v in sc.sensor_models.items()}, {k: dict(v) for k, v in sc.sensor_noises.items()}, calibration_map=cal, config=cfg)
     return py, ekf
 
 
